@@ -1081,6 +1081,29 @@ def m_map_insert(e, st, a, ctx):
     return E(OPTION, zite(found, 1, 0), {0: [], 1: [old]})
 
 
+@model(r'<std::collections::HashMap<.*> as std::iter::Extend<\(.*\)>>::extend::<.*>')
+def m_map_extend(e, st, a, ctx):
+    """insert every (key, value) of the source (a map by value or an iterator of pairs) in turn"""
+    mv = as_map(e, st, a[0])
+    src = a[1]
+    if isinstance(src, (P, PV)): src = e.deref(st, src)
+    if isinstance(src, M): pairs = [(p, k, v) for p, k, v in src.ents]
+    else:
+        vv = materialise(e, st, src)
+        pairs = []
+        for i, cell in enumerate(vv.it):
+            c = simp(i < vv.len)
+            if c is False: continue
+            if not isinstance(cell, T) or len(cell.f) != 2: raise Abort('HashMap::extend from non-pair items')
+            pairs.append((c, cell.f[0], cell.f[1]))
+    for p, k, v in pairs:
+        if p is False: continue
+        m2, found, old = map_insert(e, st, mv, k, v)
+        mv = m2 if p is True else merge(p, m2, mv)
+    e.store(st, a[0], mv)
+    return UNIT
+
+
 @model(r'std::collections::HashSet::<.*>::insert')
 def m_set_insert(e, st, a, ctx):
     mv = as_map(e, st, a[0])
@@ -1140,12 +1163,20 @@ def m_map_iter(e, st, a, ctx):
     return T([as_map(e, st, a[0]), 0, kind, True], 'iter::Map')
 
 
+@model(r'std::collections::HashMap::<.*>::drain', r'std::collections::HashSet::<.*>::drain')
+def m_map_drain(e, st, a, ctx):
+    """all entries by value, the map is left empty (the iterator is consumed eagerly: dropping a Drain removes the rest anyway)"""
+    mv = as_map(e, st, a[0])
+    e.store(st, a[0], M([]))
+    return T([mv, 0, 'set' if 'HashSet' in ctx[0] else 'pairs', False], 'iter::Map')
+
+
 @model(r'<std::collections::Hash(Map|Set)<.*> as std::iter::IntoIterator>::into_iter')
 def m_map_into_iter(e, st, a, ctx):
     return T([as_map(e, st, a[0]), 0, 'set' if 'HashSet' in ctx[0] else 'pairs', False], 'iter::Map')
 
 
-@model(r'<std::collections::hash_(map|set)::(Iter|IntoIter|Keys)<.*> as std::iter::Iterator>::next')
+@model(r'<std::collections::hash_(map|set)::(Iter|IntoIter|Keys|Drain)<.*> as std::iter::Iterator>::next')
 def m_map_iter_next(e, st, a, ctx):
     """iteration in slot order (one admissible order; DESIGN.md 2.2)"""
     it = e.deref(st, a[0]); mv, idx, kind, byref = it.f
